@@ -17,7 +17,7 @@ _T = "SE.Proofs.C03."
 THEOREMS = [_T + n for n in [
     "C03_result", "C03_accept_iff", "C03_no_crash", "C03_reject", "C03_validate_eq", "C03_specB_iff",
     "C03_normal", "C03_valid", "C03_valid_iff_constructible", "C03_coordinates_kept", "C03_box_swapped",
-    "C03_line_reversed", "C03_interval_reversed_rejected", "C03_multiline_strict",
+    "C03_line_reversed", "C03_interval_reversed_rejected", "C03_multiline_strict", "C03_normalise_idempotent",
     "C03_fixpoint", "C03_dump_injective",
     "C03_table_wellFormed", "C03_wellFormedB_sound", "C03_geometryValidate_eq", "C03_construct_eq",
     "C03_entrypoints_agree", "C03_bad_tag_rejected", "C03_class_of_tag", "C03_dump_roundtrip",
